@@ -389,6 +389,10 @@ def corpus():
         case('a' + ' ' * 68 + 'b', [T('a', 'v')]),
         case('B' * 71, [T('a', 'v')]),           # longer than RFC 2046 allows: outside the property, model = code: accepted
         case('B' * 200, [T('a', 'v')]),
+        # ---- negative read sizes on an upload that is FOLLOWED by other parts: read(-1) / read(-5) = the rest of the window
+        case('XyZ', [F('a', 'a', 'a/b', b'0123456789'), T('t', 'after'), F('b', 'b', 'a/b', b'abcdefghij')],
+             ops=[['r', -1], ['t'], ['s', 4, 0], ['r', -5], ['r', -1], ['s', 0, 0], ['r', 3], ['r', -1000]], k=-1, blk=-1),
+        case('XyZ', [F('a', 'a', 'a/b', b'0123456789'), T('t', 'after')], ops=[['s', 2, 0], ['r', -1]], k=-5, mem=90),
         # ---- chunk-size spellings: upper / mixed case hex (sizes with letters: 10..15, 26, 171 ...), leading zeros,
         # extensions, trailer fields
         case('XyZ', [T('a', 'v'), F('f', 'x', 'a/b', bytes(range(256)) * 2)], framing='chunked', chunks=[10, 11, 12, 13, 14, 15, 26, 171, 250],
@@ -482,7 +486,7 @@ def gen(rng, n):
             for _ in range(rng.randrange(1, 8)):
                 o = rng.random()
                 if o < 0.45:
-                    ops.append(['r', rng.choice([-1, 0, 1, 2, 5, 64, 1000])])
+                    ops.append(['r', rng.choice([-1, -1, -5, -1000, 0, 1, 2, 5, 64, 1000])])
                 elif o < 0.85:
                     ops.append(['s', rng.choice([-1000, -3, -1, 0, 1, 2, 9, 1000]), rng.choice([0, 0, 1, 1, 2, 2, 3])])
                 else:
@@ -497,8 +501,8 @@ def gen(rng, n):
         cfg_via = rng.choice(['ctor', 'ctor', 'setup'])
         if mem == 102400 and rng.random() < 0.5:
             cfg_via = 'default'
-        c = case(boundary, fields, mem=mem, k=rng.choice([0, 0, 1, 2, 5, 1000]),
-                 blk=rng.choice([0, 1, 2, 3, 7, 64, 64]), with_body=rng.random() < 0.3, ops=ops,
+        c = case(boundary, fields, mem=mem, k=rng.choice([0, 0, 1, 2, 5, 1000, -1, -5]),
+                 blk=rng.choice([0, 1, 2, 3, 7, 64, 64, -1]), with_body=rng.random() < 0.3, ops=ops,
                  sched=[] if rng.random() < 0.6 else [rng.choice([0, 0, 1, 2, 3, 7, 20]) for _ in range(rng.randrange(1, 40))],
                  app=rng.choice(['own', 'own', 'shared']), cfg_via=cfg_via, copy=rng.random() < 0.25, second=second,
                  api=rng.random() < 0.25,
@@ -542,7 +546,7 @@ def run_ops(x, ops):
     x.file.seek(0)
     for op in ops:
         if op[0] == 'r':
-            b = x.file.read(None if op[1] < 0 else op[1])
+            b = x.file.read(op[1])            # the size verbatim: negative sizes too (read(-1) = the rest of the WINDOW)
             out += [0, len(b)] + list(b)
         elif op[0] == 's':
             try:
@@ -880,6 +884,20 @@ def oracle(case, obs):
         if a['second_save'] != 'IOError':
             return 'upload %d: save() overwrote an existing file without overwrite=True' % i
     k = case['k']
+    # whatever sizes were asked (negative ones too), the reads of an upload never yield more than its own content
+    up_contents = [bytes(f['content']) for f in uploads]
+    for i, run in enumerate(obs.get('runs') or []):
+        j, longest = 0, 0
+        while j < len(run):
+            if run[j] == 0:
+                longest = max(longest, run[j + 1])
+                j += 2 + run[j + 1]
+            elif run[j] == 1:
+                j += 2
+            else:
+                j += 1
+        if i < len(up_contents) and longest > len(up_contents[i]):
+            return 'a read on upload %d returned %d bytes, the upload has %d' % (i, longest, len(up_contents[i]))
     for key, is_list, items in obs['files']:
         for it in items:
             if it[0] == 'f' and k > 0:
